@@ -103,6 +103,12 @@ def cases(tier, rng, schema, feats):
     for base in ("packed", "none"):
         near += [base + "\x00", base + "\x00\x00", "\x00" + base, base + " ", " " + base, base + "\n", "\t" + base, "\ufeff" + base,
                  base + "\u200b", base.upper(), base.capitalize(), base[:-1], base + base, base + ".", base + "-v2"]
+    for base in ("packed", "none"):
+        # every single-character substitution, including the first and the LAST character
+        for j in range(len(base)):
+            for ch in ("a", "b", "e", "d", "z", "P", "0"):
+                if ch != base[j]:
+                    near.append(base[:j] + ch + base[j + 1:])
     for x in near:
         for prefs in ([x], [x, "packed", "none"], ["packed", x, "none"], ["none", "packed", x], [x, x, "packed"]):
             out.append(f"C14.fmt.{n}\tdec2\t{mc([entry(-7, 'public-key')], prefs).hex()}")
